@@ -10,6 +10,8 @@ R01.3 error list discipline: SyntaxErrors are pushed only in add_error; entries 
       success.
 R01.5 prediction examines the whole transition table for every look-ahead token (a valid sentence must not be
       rejected because a transition to a lower numbered state was skipped) - same rule as C08 R08.4.
+R01.6 TokenStream::all_input_consumed is true only for an empty buffer, a buffer holding skip tokens only, or when the
+      first significant token is EOI.
 R01.4 check_and_transform_ll: left recursion is tested before left factoring (gate, see C11) and left_factor is
       applied to the checked grammar on the success path.
 Language equality itself (grammars x inputs) is NOT decided.
@@ -212,10 +214,14 @@ def check(ctx):
                   "errors are recorded through add_error", "an error is pushed past add_error (no duplicate / limit "
                   "check, see C19)", where(b, c.line))
     ctx.require_floor("R01.3", "error_pushes", len(pushes), 1)
+    per_root = {}
     for b, c in removals:
         root = b.root_fn(facts).path
-        key = "%s|removes-errors" % fn_key(b, facts)
-        if root in REMOVE_ALLOW:
+        meth = (c.path or "").split("::")[-1]
+        per_root[(root, meth)] = per_root.get((root, meth), 0) + 1
+        key = "%s|removes-errors|%s" % (fn_key(b, facts), meth)
+        # reviewed: exactly one `drain(..)` per reviewed function (the drained entries travel in the returned Err)
+        if root in REMOVE_ALLOW and meth == "drain" and per_root[(root, meth)] <= 1:
             ctx.ok("R01.3", key, "reviewed removal site: " + REMOVE_ALLOW[root], where(b, c.line))
         else:
             ctx.bad("R01.3", key,
@@ -227,6 +233,48 @@ def check(ctx):
     # the discarded results really are discarded only for the two handlers (documented precondition of R01.3)
     for h in (ll.H_MISMATCH, ll.H_PREDICTION):
         facts.body(h)
+
+    # ---------------------------------------------------------------- R01.6 all_input_consumed
+    aic = facts.body(ll.TS + "all_input_consumed")
+    results = []     # every way the result is produced
+    for bi, si, p, rv, line, mac in aic.assigns():
+        if p != [0]:
+            continue
+        if rv[0] == "use" and rv[1][0] == "k":
+            results.append(("const", rv[1][2], bi, line))
+        elif rv[0] == "bin" and rv[1] == "Eq":
+            a, b2 = operand_term(aic, rv[2]), operand_term(aic, rv[3])
+            cs = [x for x in (a, b2) if x[0] == "const"]
+            ps = [x for x in (a, b2) if x[0] in ("path", "proj")]
+            good = len(cs) == 1 and len(ps) == 1 and cs[0][3] == "parol_runtime::lexer::token::EOI" \
+                and tuple(ps[0][2][-1:]) == ("token_type",)
+            results.append(("eq-eoi" if good else "other", None, bi, line))
+        else:
+            results.append(("other", None, bi, line))
+    for c in aic.calls():
+        if c.dest == [0]:
+            results.append(("other", None, c.bb, c.line))
+    bad = [r for r in results if r[0] == "other" or (r[0] == "const" and r[1] is False and False)]
+    # the constant `true` results must lie on the edges "buffer empty" / "no non-skip token"
+    adom = cfg.Dom(aic)
+    for kind, val, bi, line in results:
+        if kind == "const" and val is True:
+            why = None
+            for d in adom.dominators(bi):
+                k = classify_switch(aic, d)
+                if k and k[0] == "call" and (k[1].path or "").endswith("TokenBuffer::is_buffer_empty") and \
+                        only_via_edge(aic, d, {v for v, _t in aic.switch_edges(d) if v != 0} if not k[2] else {0}, bi):
+                    why = "buffer empty"
+                if k and k[0] == "disc-call" and (k[1].path or "").endswith("TokenBuffer::non_skip_token_at") and \
+                        only_via_edge(aic, d, {0}, bi):
+                    why = "no non-skip token buffered"
+            if why is None:
+                bad.append((kind, val, bi, line))
+    ctx.check(not bad and any(r[0] == "eq-eoi" for r in results), "R01.6", "all_input_consumed|true-only-at-end",
+              "all_input_consumed() is true only for an empty buffer, a buffer of skip tokens, or a first significant token "
+              "of type EOI",
+              "all_input_consumed() can report `true` for other reasons (%s): unconsumed input would be accepted"
+              % [(r[0], r[3]) for r in bad], where(aic))
 
     # ---------------------------------------------------------------- R01.5 (shared with C08 R08.4)
     from .c08 import scan_complete, EVAL
